@@ -10,6 +10,7 @@ def wrapperOf : String → Option Wrapper
 def toolOf : String → Option Tool
   | "ok" => some .ok | "reorder" => some .reorder | "garbage_empty" => some .garbageEmpty
   | "garbage_ragged" => some .garbageRagged | "garbage_missing" => some .garbageMissing
+  | "garbage_length" => some .garbageLength
   | "garbage_tree" => some .garbageTree | "exit3" => some .exit3 | "hang" => some .hang
   | "missing" => some .missing | _ => none
 
